@@ -800,8 +800,14 @@ class Exec(ExprMixin, HeapMixin, StmtMixin, CallMixin, BuiltinMixin):
                     base = self.ev(tree.value, tmp_entry)
                     if isinstance(base.t, TOpt):
                         base = opt_get(base)
-                    ft = self.field_type(base.t.cls, self.mangle(tree.attr))
-                    key = f"{ft[0]}.{self.mangle(tree.attr)}"
+                    an = self.mangle(tree.attr)
+                    if tree.attr.startswith("__") and not tree.attr.endswith("__") and \
+                            self.field_type(base.t.cls, f"_{base.t.cls.lstrip('_')}{tree.attr}") is not None:
+                        an = f"_{base.t.cls.lstrip('_')}{tree.attr}"      # private field of the receiver's own class
+                    ft = self.field_type(base.t.cls, an)
+                    if ft is None:
+                        raise Unsupported(f"modifies {mod}: unknown field")
+                    key = f"{ft[0]}.{an}"
                     declared_maps.setdefault(key, []).append(base.z)
                 else:
                     raise Unsupported(f"modifies {mod}")
